@@ -24,6 +24,26 @@ def routes(R, B, r, base, heavy=True):
         ('direct_tvm', lambda: B.Cell(bridge.tvm_bits(r.bits), list(base.refs), -1)),
         ('direct_plain', lambda: B.Cell(bitarray(r.bits), list(base.refs), -1)),
     ]
+    if len(r.bits) <= 1000 and len(r.refs) <= 3:
+        # "converted from a slice": the slice is what is left of a larger cell after some bits and references were read
+        pre_bits, pre_refs = '1' * (1 + len(r.bits) % 7), 1 + (len(r.bits) % (4 - len(r.refs)))
+
+        def rest():
+            b = B.Builder().store_bits(pre_bits)
+            for i in range(pre_refs):
+                b.store_ref(B.Builder().store_uint(i, 3).end_cell())
+            b.store_bits(r.bits)
+            for k in base.refs:
+                b.store_ref(k)
+            s = b.end_cell().begin_parse()
+            s.skip_bits(len(pre_bits))
+            for i in range(pre_refs):
+                s.load_ref()
+            return s
+        out += [('consumed-slice.to_cell', lambda: rest().to_cell()), ('consumed-slice.copy.to_cell', lambda: rest().copy().to_cell()),
+                ('consumed-slice.to_builder.end_cell', lambda: rest().to_builder().end_cell()),
+                ('consumed-slice.store_slice.end_cell', lambda: B.Builder().store_slice(rest()).end_cell()),
+                ('consumed-slice.copy.store_slice', lambda: B.Builder().store_slice(rest().copy()).end_cell())]
     if heavy:
         for i, o in enumerate(BOC_OPTS):
             if i % 3 == 0:
